@@ -73,7 +73,8 @@ fn fringe(args: &[String], out: &mut dyn Write) {
         writeln!(out, "{}", json!({"ev":"reset","kind":kind,"run":run})).unwrap();
         let mut uid = 0isize;
         for op in seq {
-            match op[0].as_str().unwrap() {
+            // a panic of the code under test is data: it is logged and ends the run
+            let r = std::panic::catch_unwind(std::panic::AssertUnwindSafe(|| match op[0].as_str().unwrap() {
                 "push" => {
                     uid += 1;
                     let n = SubProblem {
@@ -85,17 +86,24 @@ fn fringe(args: &[String], out: &mut dyn Write) {
                     };
                     let j = spjson(&n);
                     f.push(n);
-                    writeln!(out, "{}", json!({"ev":"push","node":j,"len":f.len()})).unwrap();
+                    json!({"ev":"push","node":j,"len":f.len()})
                 }
                 "pop" => match f.pop() {
-                    Some(n) => writeln!(out, "{}", json!({"ev":"pop","node":spjson(&n),"len":f.len()})).unwrap(),
-                    None => writeln!(out, "{}", json!({"ev":"pop_none","len":f.len()})).unwrap(),
+                    Some(n) => json!({"ev":"pop","node":spjson(&n),"len":f.len()}),
+                    None => json!({"ev":"pop_none","len":f.len()}),
                 },
                 "clear" => {
                     f.clear();
-                    writeln!(out, "{}", json!({"ev":"fclear","len":f.len()})).unwrap();
+                    json!({"ev":"fclear","len":f.len()})
                 }
-                o => panic!("unknown op {o}"),
+                o => json!({"ev":"harness_error","what":format!("unknown op {o}")}),
+            }));
+            match r {
+                Ok(j) => writeln!(out, "{}", j).unwrap(),
+                Err(_) => {
+                    writeln!(out, "{}", json!({"ev":"panic","op":op})).unwrap();
+                    break;
+                }
             }
         }
     }
